@@ -29,7 +29,25 @@ Definition winv (st : wstate) : Prop :=
   0 <= maxCWAdj st <= c12_MaxCongestionWindowPackets * mds st.
 
 Lemma wrap64_id : forall x, - two63 <= x < two63 -> wrap64 x = x.
-Proof. intros. unfold wrap64, two63, two64 in *. rewrite Z.mod_small; lia. Qed.
+Proof.
+  intros. unfold wrap64. destruct ((- two63 <=? x) && (x <? two63)); [reflexivity|].
+  unfold two63, two64 in *. rewrite Z.mod_small; lia.
+Qed.
+
+Lemma wrap64_mod : forall x, wrap64 x = (x + two63) mod two64 - two63.
+Proof.
+  intros. unfold wrap64. destruct ((- two63 <=? x) && (x <? two63)) eqn:E; [|reflexivity].
+  unfold two63, two64 in *. rewrite Z.mod_small; lia.
+Qed.
+
+Lemma u64_mod : forall x, u64 x = x mod two64.
+Proof.
+  intros. unfold u64. destruct ((0 <=? x) && (x <? two64)) eqn:E; [|reflexivity].
+  unfold two64 in *. rewrite Z.mod_small; lia.
+Qed.
+
+Lemma u64_id : forall x, 0 <= x < two64 -> u64 x = x.
+Proof. intros. rewrite u64_mod. apply Z.mod_small. assumption. Qed.
 
 (* newBbrSender with any initial / maximum window: 4 datagrams <= initial <= maximum <= 20000 datagrams *)
 Lemma new_sender_with_inv : forall m icw mcw, 0 < m <= c12_MaxPacketBufferSize ->
@@ -60,12 +78,12 @@ Proof.
   intros w old new Ho Hn Hw. consts. unfold scale_window.
   destruct (old =? new) eqn:E.
   - assert (old = new) by lia. subst. rewrite Z.div_mul by lia. reflexivity.
-  - assert (U1 : u64 old = old) by (unfold u64, two64; apply Z.mod_small; lia).
-    assert (U2 : u64 new = new) by (unfold u64, two64; apply Z.mod_small; lia).
-    assert (U3 : u64 w = w) by (unfold u64, two64; apply Z.mod_small; lia).
+  - assert (U1 : u64 old = old) by (apply u64_id; unfold two64; lia).
+    assert (U2 : u64 new = new) by (apply u64_id; unfold two64; lia).
+    assert (U3 : u64 w = w) by (apply u64_id; unfold two64; lia).
     rewrite U1, U2, U3. replace (old =? 0) with false by lia.
     assert (B : 0 <= w * new <= 20000 * 1452 * 1452) by nia.
-    assert (U4 : u64 (w * new) = w * new) by (unfold u64, two64; apply Z.mod_small; lia).
+    assert (U4 : u64 (w * new) = w * new) by (apply u64_id; unfold two64; lia).
     rewrite U4. f_equal. apply wrap64_id.
     assert (0 <= w * new / old) by (apply Z.div_pos; lia).
     assert (w * new / old <= w * new) by (apply Z.div_le_upper_bound; nia).
@@ -276,7 +294,7 @@ Lemma pacer_units : forall rate, 0 <= rate < 9007199254740992 ->
   (8 * 65536 <= rate -> bandwidth_for_pacer rate = rate / 8).
 Proof.
   intros rate H. rewrite pacer_is_max.
-  assert (U : u64 rate = rate) by (unfold u64, two64; apply Z.mod_small; lia).
+  assert (U : u64 rate = rate) by (apply u64_id; unfold two64; lia).
   rewrite U, f64_small by lia. consts. unfold c12_BytesPerSecond.
   split; [reflexivity|]. split; intros; lia.
 Qed.
@@ -309,9 +327,9 @@ Proof.
   destruct (p_mds p <=? p_budget p) eqn:E; [right; reflexivity|left].
   set (need := p_mds p - p_budget p).
   assert (Hneed : 0 < need <= 1452) by (unfold need; lia).
-  assert (U1 : u64 need = need) by (unfold u64, two64; apply Z.mod_small; lia).
-  assert (U2 : u64 (1000000000 * need) = 1000000000 * need) by (unfold u64, two64; apply Z.mod_small; lia).
-  assert (U3 : u64 bw = bw) by (unfold u64, two64; apply Z.mod_small; lia).
+  assert (U1 : u64 need = need) by (apply u64_id; unfold two64; lia).
+  assert (U2 : u64 (1000000000 * need) = 1000000000 * need) by (apply u64_id; unfold two64; lia).
+  assert (U3 : u64 bw = bw) by (apply u64_id; unfold two64; lia).
   rewrite U1, U2, U3.
   set (diff := 1000000000 * need).
   set (d := diff / bw + (if 0 <? diff mod bw then 1 else 0)).
@@ -345,7 +363,7 @@ Proof.
   unfold b1. destruct (Z_lt_dec (p_budget p + Z.quot (bw * delay) 1000000000) two63).
   - rewrite wrap64_id by (unfold two63 in *; lia). unfold need in *. lia.
   - (* the sum left the int64 range: then the wrapped value is negative, contradiction with E3 *)
-    exfalso. unfold b1, wrap64, two63, two64 in *.
+    exfalso. unfold b1 in *. rewrite wrap64_mod in *. unfold two63, two64 in *.
     assert (p_budget p < 9223372036854775808 \/ 9223372036854775808 <= p_budget p) by lia.
     destruct H; lia.
 Qed.
